@@ -174,6 +174,10 @@ func (x *Exec) begin() {
 	vhook.Install(&vhook.Hooks{Point: x.point, Note: x.note})
 }
 
+// Release ends scheduling control: parked goroutines are let go and points become no-ops, so
+// that the body can let virtual time run (time.Sleep) before its final census.
+func (x *Exec) Release() { x.end() }
+
 func (x *Exec) end() {
 	x.mu.Lock()
 	x.active = false
